@@ -149,6 +149,8 @@ func runC08(c *Ctx) {
 	checkImportAddressIDAgreesWithConstructor(c, "C08-R3")
 	checkImportPathsAgreeOnSchemaField(c, "C08-R3")
 	checkCompressionFlagIsTheWifs(c, "C08-R3")
+	checkSameNamedParametersNotCrossed(c, "C08-R3", "waddrmgr")
+	checkSyncPointWrittenThroughManager(c, "C08-R2")
 	checkDerivationPathLiterals(c, "C08-R3")
 	checkRowRewrites(c, "C08-R4")
 	c.Advisory("Manager.SetBirthday stores the in-memory birthday before writing it (outside the property's query list)")
@@ -548,4 +550,52 @@ func checkIndexMirrorsOnlyAtCommit(c *Ctx, rule string, skip func(top string) bo
 		}
 	}
 	c.Floor(rule, "stores to index mirrors", n, 10)
+}
+
+// checkSyncPointWrittenThroughManager: the address manager mirrors the synced-to stamp in memory; Manager.SetSyncedTo
+// writes both. The database-only writer PutSyncedTo is exported for tools that work on a database WITHOUT a manager
+// (dropping the transaction history). A function of another package that has a manager at hand and still calls the
+// database-only writer moves the persisted sync point behind the running manager's back: memory keeps the old tip, a
+// restart starts from the new one.
+func checkSyncPointWrittenThroughManager(c *Ctx, rule string) {
+	p := c.P
+	put := p.Func("waddrmgr", "", "PutSyncedTo")
+	if put == nil {
+		c.Unresolved(rule, "waddrmgr.PutSyncedTo")
+		return
+	}
+	isMgr := func(t types.Type) bool {
+		if pt, ok := t.Underlying().(*types.Pointer); ok {
+			t = pt.Elem()
+		}
+		n, ok := t.(*types.Named)
+		return ok && n.Obj().Name() == "Manager" && n.Obj().Pkg() != nil && strings.HasSuffix(n.Obj().Pkg().Path(), "/waddrmgr")
+	}
+	n := 0
+	for _, cs := range p.realCallers(put) {
+		fn := cs.Parent()
+		if strings.HasSuffix(fnPkgPath(fn), "/waddrmgr") {
+			continue
+		}
+		n++
+		hasMgr := ""
+		for _, f := range Closures(outermost(fn)) {
+			var buf [16]*ssa.Value
+			for _, b := range f.Blocks {
+				for _, ins := range b.Instrs {
+					if v, ok := ins.(ssa.Value); ok && isMgr(v.Type()) {
+						hasMgr = v.Name()
+					}
+					for _, op := range ins.Operands(buf[:0]) {
+						if op != nil && *op != nil && isMgr((*op).Type()) {
+							hasMgr = (*op).Name()
+						}
+					}
+				}
+			}
+		}
+		c.Check(rule, "sync-point-written-through-manager:"+fnName(outermost(fn)), cs.Pos(), hasMgr == "",
+			fnName(outermost(fn))+" has an address manager at hand and writes the synced-to stamp with the database-only PutSyncedTo: the manager's in-memory stamp keeps the old tip while a restarted manager reads the new one")
+	}
+	c.Floor(rule, "callers of the database-only sync point writer outside waddrmgr", n, 1)
 }
